@@ -223,6 +223,24 @@ func c16Exec(op string) string {
 	if ms, err := mxj.NewMapXmlSeq(doc); err == nil {
 		s0, _ := ms.Xml()
 		si0, _ := ms.XmlIndent(pre, ind)
+		// indented output is a function of the value, the prefix and the indent of THIS call, whatever
+		// prefix another indenting encoder was given in between (same indent string)
+		for _, p2 := range []string{"\t", " ", ""} {
+			if p2 == pre {
+				continue
+			}
+			a1, _ := ms.XmlIndent(p2, ind)
+			mv.XmlIndent(pre, ind)
+			mxj.AnyXmlIndent([]interface{}{"x", map[string]interface{}{"a": map[string]interface{}{"b": "1"}}}, pre, ind)
+			a2, _ := ms.XmlIndent(p2, ind)
+			mx1, _ := mv.XmlIndent(p2, ind)
+			ms.XmlIndent(pre, ind)
+			mx2, _ := mv.XmlIndent(p2, ind)
+			if !bytes.Equal(a1, a2) || !bytes.Equal(mx1, mx2) {
+				note(fmt.Sprintf("PREFIXHISTORY XmlIndent(%q, %q) returns other bytes after another indenting call with prefix %q", p2, ind, pre))
+				break
+			}
+		}
 		for k := 0; k < 3; k++ {
 			mk := mxj.MapSeq(r.rebuild(map[string]interface{}(ms)).(map[string]interface{}))
 			if s, _ := mk.Xml(); !bytes.Equal(s, s0) {
